@@ -51,13 +51,16 @@ func createSegment(name string, opt Options) (err error) {
 			}
 		}
 	}()
+	verifPoint("createSegment.created")
 	size := int64(opt.SegmentSize)
 	if err = f.Truncate(size); err != nil {
 		return
 	}
+	verifPoint("createSegment.truncated")
 	if _, err = f.WriteAt(make([]byte, 16), size-16); err != nil {
 		return
 	}
+	verifPoint("createSegment.written")
 	err = f.Sync()
 	return
 }
